@@ -89,6 +89,8 @@ inline std::string proj(SoPlex& s)
    o.raw("up", jarr(nc, [&](int j) { return jq(qd(s.upperReal(j))); }));
    o.raw("obj", jarr(nc, [&](int j) { return jq(qd(s.objReal(j))); }));
    o.raw("rtype", jarr(nr, [&](int i) { return std::to_string((int)s.rowTypeReal(i)); }));
+   o.q("epsParam", s.realParam(SoPlex::EPSILON_ZERO)).q("tolEps", (double)s.tolerances()->epsilon());
+   o.q("feastolParam", s.realParam(SoPlex::FEASTOL)).q("tolFeas", (double)s.tolerances()->floatingPointFeastol());
    o.i("status", (int)s.status()).b("hasSol", s.hasSol()).b("hasBasis", s.hasBasis());
    if(s.hasBasis())
    {
